@@ -48,6 +48,7 @@ ASSIGN = {
     "signed": S.val_signed(2),
     "tiny": S.scaled(S.val_pow2(0), 2.0 ** -70),
     "huge": S.scaled(S.val_base(4, 1), 2.0 ** 80),
+    "u8": S.val_base(3, 80),  # stored as uint8; cumulative sums exceed 255
 }
 PATTERNS_Q = ("all2", "2323", "1213")
 PATTERNS_T = ("all2", "all3", "2323", "1213", "3122")
@@ -113,7 +114,7 @@ def run_case(pattern, lx, prov, universe, assign, req):
     items = S.items_for(pattern)
     lx = tuple(lx)
     fx = ASSIGN[assign](lx, items)
-    X = S.flodym_array(lx, items, fx, prov)
+    X = S.flodym_array(lx, items, fx, "Cu8" if assign == "u8" else prov)
     mx = R.build(lx, items, fx)
     op, arg, style = req
     case = dict(pattern=pattern, lx="".join(lx), prov=prov, universe=universe, assign=assign, req=list(req))
@@ -254,8 +255,8 @@ def assigns_for(req, tier):
     if op.endswith("unknown") or op == "identity":
         return ("base",)
     if tier == "quick":
-        return ("pow2", "signed") if op in ("cumsum",) else ("pow2",) if op == "cast_to" else ("pow2", "base")
-    return ("pow2", "base", "signed")
+        return ("pow2", "signed", "u8") if op in ("cumsum",) else ("pow2",) if op == "cast_to" else ("pow2", "base")
+    return ("pow2", "base", "signed") + (("u8",) if op == "cumsum" else ())
 
 
 def run_unit(u):
